@@ -464,6 +464,43 @@ func c07Monitor(args []string) int {
 		}
 	}
 	defer func() { search.VerifTerminalHook = nil }()
+	// every move the tree search makes and counts as searched must be a legal move of the node (the loops rely
+	// on the legality filter after DoMove): checked at every node in check and at a sample of the others
+	legalMg := movegen.NewMoveGen()
+	counted, countedChecked := 0, 0
+	search.VerifLoopHook = func(fn int, p *position.Position, ply int, ev int, a int, b int) {
+		if ev != 4 || a == 0 {
+			return
+		}
+		counted++
+		if !p.HasCheck() && counted%16 != 0 {
+			return
+		}
+		countedChecked++
+		fresh, err := position.NewPositionFen(p.StringFen())
+		if err != nil || fresh == nil {
+			return
+		}
+		mv := Move(a).MoveOf()
+		ok := false
+		for _, lm := range *legalMg.GenerateLegalMoves(fresh, movegen.GenAll) {
+			if lm.MoveOf() == mv {
+				ok = true
+				break
+			}
+		}
+		if !ok {
+			in := map[string]interface{}{}
+			for k, v := range current {
+				in[k] = v
+			}
+			in["node"] = p.StringFen()
+			in["move"] = mv.StringUci()
+			in["in"] = map[int]string{0: "search", 1: "qsearch"}[fn]
+			rep.Violate("illegal-move-searched-in-tree", in, "the move loop made and counted "+mv.StringUci()+", which is not a legal move of the node")
+		}
+	}
+	defer func() { search.VerifLoopHook = nil }()
 	var positions []GamePos
 	w.Stream(n*8, true, func(g GamePos) {
 		pieces := g.P.OccupiedAll().PopCount()
@@ -480,7 +517,10 @@ func c07Monitor(args []string) int {
 		p, _ := position.NewPositionFen(fen)
 		positions = append(positions, GamePos{Root: fen, P: p})
 	}
-	for _, g := range positions {
+	// checks against a king with castling rights: default configuration, depth 3-5
+	castleFrom := len(positions)
+	positions = append(positions, w.checkVsCastlingRoots(3+n/10)...)
+	for gi, g := range positions {
 		p, _ := position.NewPositionFen(g.Root)
 		for _, m := range g.Moves {
 			p.DoMove(m)
@@ -497,6 +537,14 @@ func c07Monitor(args []string) int {
 			cfgName = fmt.Sprintf("FP=%v LMP=%v LMR=%v NMP=%v RAZ=%v RFP=%v QFP=%v TT=%v QS=%v EXT=%v", s.UseFP, s.UseLmp, s.UseLmr, s.UseNullMove, s.UseRazoring, s.UseRFP, s.UseQFP, s.UseTT, s.UseQuiescence, s.UseExt)
 		}
 		depth := 2 + rng.Intn(5)
+		if gi >= castleFrom {
+			*s = savedSearchCfg
+			s.UseBook = false
+			s.TTSize = 2
+			cfgName = "default"
+			depth = 5 + rng.Intn(2)
+			rep.Stats["roots_check_against_castling_rights"]++
+		}
 		current = map[string]interface{}{"root": g.Root, "moves": movesUci(g.Moves), "fen": p.StringFen(), "depth": depth, "config": cfgName}
 		setCurrent(current)
 		legal := w.legalMoves(p)
@@ -571,6 +619,8 @@ func c07Monitor(args []string) int {
 		rep.Stats["deep_searches_completed"]++
 	}
 	rep.Stats["nodes_classified_terminal"] = classified
+	rep.Stats["counted_moves_seen"] = counted
+	rep.Stats["counted_moves_checked_legal"] = countedChecked
 	return rep.Emit()
 }
 
